@@ -93,6 +93,10 @@ impl DiskDevice {
     }
 
     pub fn min_prefix_len(&self) -> FileLen {
+        #[cfg(fclones_verif)]
+        if let Some(v) = crate::verif_hooks::knob("FCLONES_VERIF_MIN_PREFIX") {
+            return FileLen(v);
+        }
         FileLen(match self.disk_kind {
             DiskKind::SSD => 4 * 1024,
             DiskKind::HDD => 4 * 1024,
@@ -101,6 +105,10 @@ impl DiskDevice {
     }
 
     pub fn max_prefix_len(&self) -> FileLen {
+        #[cfg(fclones_verif)]
+        if let Some(v) = crate::verif_hooks::knob("FCLONES_VERIF_MAX_PREFIX") {
+            return FileLen(v);
+        }
         FileLen(match self.disk_kind {
             DiskKind::SSD => 4 * 1024,
             DiskKind::HDD => 16 * 1024,
@@ -113,6 +121,10 @@ impl DiskDevice {
     }
 
     pub fn suffix_threshold(&self) -> FileLen {
+        #[cfg(fclones_verif)]
+        if let Some(v) = crate::verif_hooks::knob("FCLONES_VERIF_SUFFIX_THRESHOLD") {
+            return FileLen(v);
+        }
         FileLen(match self.disk_kind {
             DiskKind::HDD => 64 * 1024 * 1024, // 64 MB
             DiskKind::SSD => 64 * 1024,        // 64 kB
@@ -226,6 +238,29 @@ impl DiskDevices {
     /// Reads the list of partitions and disks from the system and builds the `DiskDevices`
     /// structure from that information.
     pub fn new(pool_sizes: &HashMap<OsString, Parallelism>) -> DiskDevices {
+        #[cfg(fclones_verif)]
+        if let Some(pinned) = crate::verif_hooks::pinned_devices() {
+            let mut result = DiskDevices {
+                devices: Vec::new(),
+                mount_points: Vec::new(),
+            };
+            result.add_device(
+                OsString::from("default"),
+                DiskKind::Unknown(-1),
+                String::from("unknown"),
+                pool_sizes,
+            );
+            for d in pinned {
+                let index = result.add_device(d.name, d.kind, String::from("simfs"), pool_sizes);
+                result
+                    .mount_points
+                    .push((Path::from(d.mount_point), index));
+            }
+            result
+                .mount_points
+                .sort_by_key(|(p, _)| cmp::Reverse(p.component_count()));
+            return result;
+        }
         let mut sys = System::new();
         sys.refresh_disks_list();
         let mut result = DiskDevices {
